@@ -2,6 +2,7 @@ import einx._src.tracer as tracer
 import numpy as np
 from collections import defaultdict
 import itertools
+import re
 from einx._src.util import pytree
 
 
@@ -433,6 +434,7 @@ def compile(object, return_code=False):
 
             name_hints[id(variable)].append(f"const{len(variableid_to_constant)}")
             value_str = str(origin.value).replace("\n", " ")
+            value_str = re.sub(r" at 0x[0-9a-fA-F]+", "", value_str)  # No memory addresses: the code text of a call should be reproducible
             code.root_block.prepend(comment_statement(f"Constant const{len(variableid_to_constant)}: {value_str}", code.root_block))
 
         else:
